@@ -14,7 +14,7 @@ MidC == {"0", "1", "lim-1"}
 FC == {"0", "1", "p-1", "rnd"}
 SigC == {"empty", "1B", "135B", "136B", "137B", "10kB"}
 EntryC == {"tree", "witness", "vector", "raw"}
-HistC == {"set", "append", "range", "batch"}
+HistC == {"set", "append", "range", "batch", "swap-batch", "reopen"}
 OthersC == {"none", "sparse"}
 
 ProveCases == [idx : IdxC, lim : LimC, mid : MidC, s : FC, e : FC, sig : SigC, entry : EntryC, hist : HistC, others : OthersC]
@@ -24,10 +24,10 @@ ValidProve(c) == ~(c.mid = "1" /\ c.lim = "1")
 \* C02: modification x verifier x verifier-side tree/root-set class
 FieldC == {"root", "e", "x", "y", "nul"}
 HowC == {"inc", "swap", "zero"}
-SigModC == {"flip", "trunc", "extend-fix", "extend-nofix", "len+1", "len-1", "len0"}
+SigModC == {"flip", "trunc", "extend-fix", "extend-nofix", "len+1", "len-1", "len0", "len+2^32", "len+2^63"}
 ProofBitC == {"first", "last", "flags", "mid1", "mid2"}
 KindC == {"raw", "stateful", "roots"}
-TreeC == {"same", "other-changed", "member-deleted", "changed-restored"}
+TreeC == {"same", "other-changed", "member-deleted", "changed-restored", "restarted", "restarted-member-deleted"}
 RootsC == {"empty", "cur", "other", "other+cur", "stale", "zero", "zeros", "zero+cur"}
 TamperCases ==
   [what : {"none"}, kind : KindC, tree : TreeC, roots : RootsC]
